@@ -3,11 +3,14 @@
  *
  *   replay <op> key=value ...          op = unit name, e.g. set_at_s3, mem_swap_slots_01_s128 (suffix _s<n> = element size)
  *
- * tools/verif.py extracts the verifier's counterexample from the trace: fields of the is_fresh-allocated list object(s)
- * (list.item_size, ...; their last, i.e. post-state, values), the pre-state of the list(s) in the ghosts r_length,
- * r_current_size, r_dynamic (r2_* for the second list of copy / swap_contents), scalar arguments (arg.index, arg.n, arg.a, arg.b, arg.item_count, ...; the DFCC wrapper's copy is
- * arg.<name>_wrapper) and the ghost witnesses (g_k/g_old = offset and old value of one byte of the storage, g_j = offset
- * of a byte inside one element, g_va/g_vb = that byte of element a / b for swap).
+ * tools/verif.py extracts the verifier's counterexample from the trace:
+ *   r_length, r_current_size, r_dynamic   the list's pre-state (ghosts tied to the list by AL_REQ_OK in
+ *                                         contracts/array_list.h; r_length2, ... = the second list of copy (to) and
+ *                                         swap_contents (list_b)).  The object fields list.length, ... that the trace
+ *                                         also yields are their LAST values, i.e. the post-state: only a fall-back
+ *   arg.index, arg.n, arg.a, arg.b, ...   scalar arguments (arg.<name>_wrapper = the DFCC wrapper's copy, preferred)
+ *   g_k / g_old, g_j, g_va / g_vb         ghost witnesses: offset and old value of one byte of the storage; offset of a
+ *                                         byte inside one element and that byte of elements a / b (swap)
  * The list is rebuilt natively with exactly those field values: the storage is a real block of current_size bytes
  * (acquired from the default allocator for a dynamic list, malloc'ed for a list over caller-provided storage, so ASan
  * flags any access outside it), pattern-filled, with the witnessed bytes at the witnessed offsets.  The REAL function is
@@ -17,8 +20,7 @@
  * and same small distances between length, capacity and the index / count arguments, larger gaps cut to 4 elements;
  * the output says so (see maybe_reduce).
  * exit 0: property held on this input; exit 1: violated (reason printed); exit 3: input not constructible natively
- * (growth to 2^50 bytes, ...).  Built with -fsanitize=address,undefined: a sanitizer report
- * is a non-zero exit as well.
+ * (growth to 2^50 bytes, ...).  Built with -fsanitize=address,undefined: a sanitizer report is a non-zero exit too.
  *
  * aws_array_list_mem_swap is static in source/array_list.c: the mem_swap_* units are replayed through its only caller
  * aws_array_list_swap on a three-element list of the unit's element size (slots a, b as in the unit's name; the
@@ -94,18 +96,18 @@ static int s_nlin, s_reduced;
 
 static struct lin *rdlist(const char *name) {
     char k[80];
-    /* pre-state ghosts r_* (first list) / r2_* (second list: to, list_b); the object fields <name>.* found in the trace
-     * are the LAST values, i.e. the post-state, and only a fall-back */
-    const char *pre = s_nlin == 0 ? "r" : "r2";
+    /* pre-state ghosts r_length, r_current_size, r_dynamic (first list) / r_length2, ... (second list: to, list_b); the
+     * object fields <name>.* found in the trace are the LAST values, i.e. the post-state, and only a fall-back */
+    const char *suf = s_nlin == 0 ? "" : "2";
     struct lin *d = &s_lin[s_nlin++];
     d->name = name;
-    snprintf(k, sizeof k, "%s_length", pre);
+    snprintf(k, sizeof k, "r_length%s", suf);
     if (!has(k)) snprintf(k, sizeof k, "%s.length", name);
     d->length = get(k, 3);
-    snprintf(k, sizeof k, "%s_current_size", pre);
+    snprintf(k, sizeof k, "r_current_size%s", suf);
     if (!has(k)) snprintf(k, sizeof k, "%s.current_size", name);
     size_t cur = has(k) ? get(k, 0) : (d->length + 1) * s_isz;
-    snprintf(k, sizeof k, "%s_dynamic", pre);
+    snprintf(k, sizeof k, "r_dynamic%s", suf);
     if (has(k)) d->dynamic = get(k, 0) != 0;
     else { snprintf(k, sizeof k, "%s.alloc", name); d->dynamic = !ptr_is_null(k, 0); }
     snprintf(k, sizeof k, "%s.item_size", name);
